@@ -90,6 +90,12 @@ impl Rng {
     v
   }
 
+  /// between lo and hi random bytes
+  pub fn some_bytes(&mut self, lo: usize, hi: usize) -> Vec<u8> {
+    let n = self.usize(lo, hi);
+    self.bytes(n)
+  }
+
   /// A u64 whose magnitude is log-uniform: pick a bit length first.
   pub fn log_u64(&mut self) -> u64 {
     let bits = self.below(65);
